@@ -11,7 +11,7 @@ Regenerates `lean/Nstd/Generated/StrTables.lean` from the CURRENT sources of the
   include/nstd/String.hpp the capacity rules `usize capacity = x | MASK` of `detach` and of the copying
                           constructors / `operator=` (separately; a missing mask is 0), the default
                           arguments (`trim(chars = "…")`, `substr(start, length = N)`, `split(…, skipEmpty = b)`),
-                          the range test of `isSpace`, the literals of `fromBool`, the multiplier of `hash`
+                          the range test of `isSpace`, the literals of `fromBool` and `toBool`, the multiplier of `hash`
 
 The model (Nstd/Str/Model.lean) is written over these definitions, the case-map lemmas
 (`lower_map`, `upper_map` in LemmasQuery) are re-checked against what the code says now.
@@ -122,6 +122,11 @@ def generate(repo):
     if len(re.findall(r"hashCode\s*\*=", hm.group(0))) != 3:
         raise Untranslatable("hash(const String&): expected three multiplications")
 
+    m = re.search(r"equalsIgnoreCase\(\"((?:\\.|[^\"\\])*)\"\)\s*\|\|\s*\*this\s*==\s*\"((?:\\.|[^\"\\])*)\"", hpp)
+    if not m:
+        raise Untranslatable("String::toBool: `equalsIgnoreCase(\"…\") || *this == \"…\"` not found")
+    tb_false, tb_zero = c_string_bytes(m.group(1)), c_string_bytes(m.group(2))
+
     def nl(t):
         return "[" + ", ".join(str(x) for x in t) + "]"
 
@@ -160,6 +165,9 @@ def generate(repo):
             f"def falseLit : List Nat := {nl(false_lit)}\n\n"
             "/-- `hashCode *= hashMul` (three times) in `hash(const String&)` -/\n"
             f"def hashMul : Nat := {hash_mul}\n\n"
+            "/-- the literals of `toBool()`: `equalsIgnoreCase(toBoolFalseLit) || *this == toBoolZeroLit` -/\n"
+            f"def toBoolFalseLit : List Nat := {nl(tb_false)}\n"
+            f"def toBoolZeroLit : List Nat := {nl(tb_zero)}\n\n"
             "end Nstd.Str.Generated\n")
 
 
